@@ -13,11 +13,21 @@
 EXTENDS TSM, Json, IOUtils, TLCExt
 
 Traces == ndJsonDeserialize(IOEnv.TRACE_FILE)
-VARIABLES tid, l, rej, viol
-tvars == <<tid, l, rej, viol>>
+VARIABLES tid, l, rej, viol,
+          ackd     \* ghost: [cs, sc -> BOOLEAN] a segment ack travelling in that direction has been DELIVERED (the harness's own
+                   \* record of what it handed to a stack): the receiver has granted a window
+tvars == <<tid, l, rej, viol, ackd>>
 T == Traces[tid].evs
 
-TInit == Init /\ tid \in 1..Len(Traces) /\ l = 1 /\ rej = 0 /\ viol = {}
+TInit == Init /\ tid \in 1..Len(Traces) /\ l = 1 /\ rej = 0 /\ viol = {} /\ ackd = [cs |-> FALSE, sc |-> FALSE]
+AckdNext(e) == IF e.ev = "Deliver" /\ e.i \in 1..Len(net) /\ net[e.i].k = "ACK"
+               THEN [ackd EXCEPT ![net[e.i].dir] = TRUE] ELSE ackd
+\* until the receiver has granted a window (its first segment ack has arrived) a sender has at most ONE segment under way:
+\* the first one, alone -- also when it repeats it after a timeout
+SegsIn(fs, kind) == Len(SelectSeq(fs, LAMBDA f : f.k = kind /\ f.seg))
+FirstSegmentAlone(e) == LET a == AckdNext(e) IN
+                        /\ (~a.cs => SegsIn(tx', "CA") <= 1)
+                        /\ (~a.sc => SegsIn(tx', "CR") <= 1)
 
 Act(e) ==
     CASE e.ev = "Submit"     -> Submit /\ Emit0 /\ act' = [n |-> "Submit", i |-> 0]
@@ -84,6 +94,7 @@ Failing(e) ==
     (IF WindowBound' THEN {} ELSE {"WindowBound"}) \cup
     (IF WindowRange' THEN {} ELSE {"WindowRange"}) \cup
     (IF A_WindowRespectsAck THEN {} ELSE {"WindowBound"}) \cup
+    (IF FirstSegmentAlone(e) THEN {} ELSE {"WindowBound"}) \cup
     (IF SingleFaultRepaired' THEN {} ELSE {"SingleFaultRepaired"}) \cup
     (IF A_SilenceAfterOutcome THEN {} ELSE {"SilenceAfterOutcome"}) \cup
     (IF A_AbortOnlyAfterAllRetries THEN {} ELSE {"AbortOnlyAfterAllRetries"}) \cup
@@ -101,6 +112,7 @@ Step ==
              THEN Act(e) /\ Match(e.st) /\ rej' = rej
              ELSE Bind(e) /\ rej' = IF rej = 0 THEN l ELSE rej
         /\ viol' = viol \cup {<<m, l>> : m \in {x \in Failing(e) : \A v \in viol : v[1] # x}}
+        /\ ackd' = AckdNext(e)
     /\ l' = l + 1 /\ UNCHANGED tid
 
 \* end of trace: the run ended because nothing was left to do -- or it is reported as not terminated
@@ -110,7 +122,7 @@ Done ==
     /\ l = Len(T) + 1
     /\ PrintT(<<"@@", [tid |-> Traces[tid].tid, rej |-> rej, viol |-> viol, final |-> Final,
                        out |-> [i \in 1..Len(cOut) |-> cOut[i].k], faults |-> <<nDrop, nDup, nDelay>>]>>)
-    /\ l' = l + 1 /\ UNCHANGED <<vars, tid, rej, viol>>
+    /\ l' = l + 1 /\ UNCHANGED <<vars, tid, rej, viol, ackd>>
 
 TNext == Step \/ Done
 TSpec == TInit /\ [][TNext]_<<vars, tvars>>
